@@ -2,7 +2,7 @@
    argument tokens in, an outcome and result tokens out.  All calls into the
    models are made here, in Gallina; the hand-written OCaml only tokenises. *)
 From Coq Require Import String Ascii.
-From Dryoc Require Import Lib.Outcome Impl.Blake2b Impl.Kdf Impl.Poly1305 Impl.Hashes Impl.SecretBox Impl.SecretStream Impl.Scalarmult Impl.PwhashStr Impl.Serde Impl.Rng Impl.Sign Impl.Protected Impl.TypeState.
+From Dryoc Require Import Lib.Outcome Impl.Blake2b Impl.Kdf Impl.Argon2 Impl.Poly1305 Impl.Hashes Impl.SecretBox Impl.SecretStream Impl.Scalarmult Impl.PwhashStr Impl.Serde Impl.Rng Impl.Sign Impl.Protected Impl.TypeState.
 Open Scope Z_scope.
 
 Inductive tok :=
@@ -139,6 +139,16 @@ Definition dispatch (op : string) (args : list tok) : option (outcome (list tok)
   else if String.eqb op "kx.server" then
     match args with
     | [TB spk; TB ssk; TB cpk] => Some (omap (fun p => [TB (fst p); TB (snd p)]) (ScalarmultImpl.server_session_keys spk ssk cpk))
+    | _ => None end
+  else if String.eqb op "pwhash.hash" then
+    match args with
+    | [TI outlen; TB pw; TB salt; TB ops; TB mem; TI alg] =>
+        Some (omap (fun h => [TB h]) (Argon2Impl.crypto_pwhash (Z.to_nat outlen) pw salt (le_val ops) (le_val mem) alg))
+    | _ => None end
+  else if String.eqb op "pwhash.verify" then
+    match args with
+    | [TB stored; TB salt; TI hl; TB ops; TB mem; TI alg; TB pw] =>
+        Some (omap (fun _ : unit => []) (Argon2Impl.verify stored salt (Z.to_nat hl) (le_val ops) (le_val mem) alg pw))
     | _ => None end
   else if String.eqb op "pwhash.from_string" then
     match args with
